@@ -181,7 +181,7 @@ def main(prop, tier, only=None, engine=None):
                     cnt["covers"] += r.get("witnesses", 0)
                 samples.append({k: v for k, v in r.items() if k in ("name", "verdict", "threads", "bounds", "oracle", "functions",
                                                                     "steps", "cnf_vars", "cnf_clauses", "solver_s", "witness_trace",
-                                                                    "queries", "witnesses", "why", "symptom", "replayed")})
+                                                                    "queries", "witnesses", "why", "symptom", "replayed", "crosscheck_z3")})
 
 
     # the two engines run side by side (K: a few CBMC processes; M: encoder workers + kissat portfolio)
